@@ -25,9 +25,9 @@ func init() {
 
 func (p *c17) NumCases(tier string) int {
 	if tier == "thorough" {
-		return 20000 + 1
+		return 60000 + 1
 	}
-	return 1500 + 1
+	return 8000 + 1
 }
 
 func outcomeCanon(o adapt.Outcome) string {
